@@ -472,6 +472,12 @@ class Run:
             if m is None and circuit is None:
                 return
             why = None
+            if m is not None and circuit is None and exc in ('ZeroDivisionError',
+                                                             'OverflowError'):
+                # Python raises on exact division by zero and on float overflow in `**`;
+                # the model's arithmetic is total (inf): outside the model (design_notes)
+                ck.bump('arith_exception_skipped')
+                return
             if (m is None) != (circuit is None):
                 why = ('model rejects, implementation accepts' if m is None
                        else f'model accepts, implementation raises {exc}')
